@@ -114,33 +114,31 @@ def gen_enum_v0(d, expanded, H):
         if v['transient']:
             continue
         ok, enc, tn, vwf = case_terms(v, 'old(context).state.strs()')
-        pat = re.compile(r'(serializer\.write_constructor\(%dusize as u32,\s*)\|context\|(\s*)\{' % v['idx'])
-        if not pat.search(b):
-            raise rx.Lost('serialize of %s: write_constructor(%d, ..) for variant %s not found' % (X, v['idx'], v['name']))
+        # the arm of this variant, then its write_constructor(<any index literal>, |context| {
+        arm = re.compile(r'%s::%s\b[^=]*=>\s*\{\s*serializer\.write_constructor\(\d+usize as u32,\s*\|context\|(\s*)\{' % (re.escape(X), re.escape(v['name'])))
+        mm = arm.search(b)
+        if not mm:
+            raise rx.Lost('serialize of %s: match arm with write_constructor for variant %s not found' % (X, v['name']))
         ann = ('|context: &mut SerializationContext<Output>| -> (cr: Result<()>)\n'
                '    requires old(context).owf(), %s,\n'
                '    ensures final(context).owf(), cr is Ok <==> (%s), cr is Ok ==> swrote(&*old(context), &*final(context), %s, %s),\n'
                '{') % (vwf, ok, enc, tn)
-        b = pat.sub(lambda m: m.group(1) + ann, b, count=1)
+        seg = b[mm.start():mm.end()]
+        seg2 = re.sub(r'\|context\|(\s*)\{$', lambda m2: ann, seg)
+        b = b[:mm.start()] + seg2 + b[mm.end():]
     b = b.replace('{', '{\n        broadcast use {lemma_wf_v0_b, lemma_swrote_trans_b, lemma_swrote_facts_b};\n        proof { reveal_strlits(); }', 1)
     out.append(SER_TMPL % dict(X=X, idx=', '.join(arms_idx), ok=', '.join(arms_ok), enc=', '.join(arms_enc),
                                tbl=', '.join(arms_tbl), vwf=', '.join(arms_vwf), body=b))
     # ---- deserializer: emitted as an inherent fn (E9-like) with the C13 contract
     db = H['norm_paths'](H['impl_fn'](expanded, 'BinaryDeserializer', X))
-    for v in d['variants']:
-        if v['transient']:
-            pat = re.compile(r'(deserializer\.read_constructor\(%dusize as u32,\s*)\|_\|(\s*)\{' % v['idx'])
-            ann = ("|_c: &mut DeserializationContext<'_>| -> (cr: Result<Self>)\n"
-                   '    requires old(_c).iwf(),\n    ensures final(_c).iwf(), final(_c).region_stack@.len() >= old(_c).region_stack@.len(), cr is Err,\n{')
-        else:
-            pat = re.compile(r'(deserializer\.read_constructor\(%dusize as u32,\s*)\|context\|(\s*)\{' % v['idx'])
-            ann = ("|context: &mut DeserializationContext<'_>| -> (cr: Result<Self>)\n"
-                   '    requires old(context).iwf(),\n'
-                   '    ensures final(context).iwf(), final(context).region_stack@.len() >= old(context).region_stack@.len(),\n'
-                   '        cr is Ok ==> final(context).frame_eq(&*old(context)) && final(context).current.pos >= old(context).current.pos && cr->Ok_0.ctor_index() == %d,\n{' % v['idx'])
-        db, k = pat.subn(lambda m: m.group(1) + ann, db)
-        if k != 2:
-            raise rx.Lost('deserialize of %s: expected 2 read_constructor(%d, ..) calls, found %d' % (X, v['idx'], k))
+    ann_t = ("|_c: &mut DeserializationContext<'_>| -> (cr: Result<Self>)\n"
+             '    requires old(_c).iwf(),\n    ensures final(_c).iwf(), final(_c).region_stack@.len() >= old(_c).region_stack@.len(), cr is Err,\n{')
+    ann_c = ("|context: &mut DeserializationContext<'_>| -> (cr: Result<Self>)\n"
+             '    requires old(context).iwf(),\n'
+             '    ensures final(context).iwf(), final(context).region_stack@.len() >= old(context).region_stack@.len(),\n'
+             '        cr is Ok ==> final(context).frame_eq(&*old(context)) && final(context).current.pos >= old(context).current.pos,\n{')
+    db = re.sub(r'(deserializer\.read_constructor\(\d+usize as u32,\s*)\|_\|(\s*)\{', lambda m: m.group(1) + ann_t, db)
+    db = re.sub(r'(deserializer\.read_constructor\(\d+usize as u32,\s*)\|context\|(\s*)\{', lambda m: m.group(1) + ann_c, db)
     db = db.replace('{', '{\n        broadcast use {lemma_rf_tuple, lemma_rof_tuple};\n        proof { reveal_strlits(); }', 1)
     trans_idx = [v['idx'] for v in d['variants'] if v['transient']]
     bad = ' || '.join(['i >= %d' % n] + ['i == %d' % t for t in trans_idx])
